@@ -663,7 +663,7 @@ func c09scriptChild(raw json.RawMessage, scratch string) {
 	r := wk.ChildRes("C09")
 	base := prng.New(a.Seed).Split(0xC09)
 	for i := a.Start; i < a.End; i++ {
-		rng := base.Split(uint64(i))
+		rng := base.At(uint64(i))
 		var prog *c09prog
 		if ex.File {
 			prog = genScript(rng, "file", rng.Pick(4<<20, 4<<20, 8<<20))
@@ -851,7 +851,7 @@ func c09freeChild(raw json.RawMessage, scratch string) {
 	r := wk.ChildRes("C09")
 	base := prng.New(a.Seed).Split(0xF09)
 	for i := a.Start; i < a.End; i++ {
-		rng := base.Split(uint64(i))
+		rng := base.At(uint64(i))
 		fc := &freeCase{Backend: "mem", Cap: rng.Pick(4096, 8192, 12288), Seed: rng.U64() >> 8, CloseBy: rng.PickS("writer", "reader"), CustomErr: rng.Bool()}
 		if ex.File {
 			fc.Backend = "file"
